@@ -51,7 +51,21 @@ def meshes(seed):
     return out
 
 
-def containers(name, mesh, seed):
+LAYOUTS = ("C", "F", "strided")
+
+
+def laid_out(a, layout):
+    """the same values in another memory layout (the library stores the array it is given)"""
+    if layout == "F":
+        return np.asfortranarray(a)
+    if layout == "strided":
+        big = np.zeros((a.shape[0], 2 * a.shape[1] + 1))
+        big[:, 1::2] = a
+        return big[:, 1::2]
+    return np.ascontiguousarray(a)
+
+
+def containers(name, mesh, seed, layout="C"):
     """list of (label, FieldContainer) on this mesh"""
     import felupe as fem
 
@@ -80,7 +94,7 @@ def containers(name, mesh, seed):
         out.append(("u,p,J", fem.FieldsMixed(r, n=3)))
     for lab, f in out:
         for k, fld in enumerate(f.fields):
-            fld.values = zoo.offarr(seed, 400 + k, fld.values.shape) + 0.0
+            fld.values = laid_out(zoo.offarr(seed, 400 + k, fld.values.shape) + 0.0, layout)
     return out
 
 
@@ -106,6 +120,10 @@ def plan(tier, seed):
     for name, cont in (("quad", "u,p,J"), ("quad", "u2"), ("hex", "u,p,J"), ("tri6", "u,p,J"), ("quad9", "u,p,J")):
         for first in range(12):
             cases.append(dict(key=f"dict/{name}/{cont}/first={first}", kind="dict", mesh=name, cont=cont, first=first, size=size, seed=seed, cost=10))
+    # the same dictionaries on fields whose value arrays are not C-contiguous (user-supplied start values)
+    for name, cont in (("quad", "u,p,J"), ("hex", "u,p,J")):
+        for first in range(12):
+            cases.append(dict(key=f"dict/{name}/{cont}@F/first={first}", kind="dict", mesh=name, cont=cont, layout="F", first=first, size=2, seed=seed, cost=10))
     for lc in ("symmetry", "uniaxial", "biaxial", "shear"):
         for name in ("quad", "hex-plain"):
             cases.append(dict(key=f"loadcase/{lc}/{name}", kind="loadcase", lc=lc, mesh=name, seed=seed, cost=5))
@@ -140,7 +158,7 @@ def run_numbering(case):
 
     c = Ctx(case["key"])
     mesh = meshes(case["seed"])[case["mesh"]]
-    for lab, field in containers(case["mesh"], mesh, case["seed"]):
+    for lab, field in [(f"{l}@{lay}" if lay != "C" else l, f) for lay in LAYOUTS for l, f in containers(case["mesh"], mesh, case["seed"], lay)]:
         idx, off = ref_index(field)
         N = int(off[-1])
         c.eq(f"{lab}/offsets", "FieldContainer.offsets", field.offsets, off[1:-1])
@@ -352,11 +370,13 @@ def run_dict(case):
 
     c = Ctx(case["key"])
     mesh = meshes(case["seed"])[case["mesh"]]
-    field = dict(containers(case["mesh"], mesh, case["seed"]))[case["cont"]]
+    field = dict(containers(case["mesh"], mesh, case["seed"], case.get("layout", "C")))[case["cont"]]
     idx, off = ref_index(field)
     N = int(off[-1])
     A = alphabet(field, case["seed"])
-    cur = fem.math.values(field).copy()
+    cur = np.zeros(N)  # current values by the reference numbering (not read through the library)
+    for (fi, p, cc), k in idx.items():
+        cur[k] = field.fields[fi].values[p, cc]
     # unknowns of points that belong to no cell (per field's own mesh)
     missing = set()
     for fi, f in enumerate(field.fields):
